@@ -20,6 +20,7 @@ MAP = [  # (commit, property, hunt dir, note)
     ("0f910ee", "C02", "../hunt2/C01/1", ""), ("282c9f2", "C01", "../hunt2/C01/2", ""), ("2605078", "C02", "../hunt2/C02/1", ""),
     ("1962b55", "C02", "../hunt2/C02/2", "demo aborts the process (SIGABRT) with the patch: run with -- --test-threads 1"),
     ("9de8449", "C15", "../hunt2/C15/1", ""), ("28a8762", "C15", "../hunt2/C15/2", ""), ("cca14e6", "C14", "../hunt2/C14/3", ""),
+    ("f624311", "C08", "../hunt2/C08/2", ""), ("07c787b", "C08", "../hunt2/C08/1", ""),
 ]
 
 def sh(cmd, cwd=WT):
